@@ -64,6 +64,11 @@ fn main() {
         let to: usize = opt("--to").and_then(|s| s.parse().ok()).unwrap_or(usize::MAX);
         std::process::exit(checks::c14::worker(tier, from, to));
     }
+    if cmd == "c15-worker" {
+        let from: usize = opt("--from").and_then(|s| s.parse().ok()).unwrap_or(0);
+        let to: usize = opt("--to").and_then(|s| s.parse().ok()).unwrap_or(usize::MAX);
+        std::process::exit(checks::c15::worker(tier, from, to));
+    }
     if cmd == "c04-emit" {
         let out = opt("--out").unwrap_or_else(|| usage());
         let upto: usize = opt("--upto").and_then(|s| s.parse().ok()).unwrap_or(usize::MAX);
